@@ -202,7 +202,7 @@ def check(ctx, rep):
         k2 = util.bexpr(ctx, nse, rc[2][0])
         k1 = k1[1] if k1[0] == "F" and k1[2] == 0 else k1
         k2 = k2[1] if k2[0] == "F" and k2[2] == 0 else k2
-        good = k1 == want_key and k2 == want_key and util.digest_type_ok(ctx, hm, "hmac::HmacCore<") and util.digest_type_ok(ctx, hm, "sha1::Sha1Core")
+        good = k1 == util.cb(want_key) and k2 == util.cb(want_key) and util.digest_type_ok(ctx, hm, "hmac::HmacCore<") and util.digest_type_ok(ctx, hm, "sha1::Sha1Core")
         desc = "hmac key %s; rc4 key %s" % (show_b(k1), show_b(k2))
     else:
         desc = "hmac / rc4 construction not found"
